@@ -53,6 +53,7 @@ func checkC06(c *Ctx) {
 	r.Rule("R06.4", "background context is detachedContext{caller}; its methods are constant/delegating and declared on the type", 3)
 	r.Rule("R06.5", "every in-module Read tests SkipRead(ctx) before touching storage and then returns ErrNotFound", 3)
 	r.Rule("R06.6", "Trait.TTL: context TTL if non-zero, else configured TTL, UnlimitedTTL ⇒ 0", 1)
+	r.Rule("R06.7", "context accessors: TTL(ctx) is the value of the installed cell (0 without one); SkipRead(ctx) is true exactly when the flag is present and true; the failure cache is consulted with the caller's context (so SkipRead bypasses it too)", 2)
 	r.NotDecided = []string{"builder TTL when the caller installed no TTL cell", "cancel timing", "user backends honouring the context TTL"}
 	for _, sib := range siblings {
 		fo := c.failover(sib)
@@ -63,6 +64,7 @@ func checkC06(c *Ctx) {
 		c.c06Sibling(fo)
 	}
 	c.c06WithTTL()
+	c.c06Accessors()
 	c.c06Detached()
 	c.c06SkipRead()
 	c.c06TraitTTL()
@@ -615,3 +617,159 @@ func inlineUnexported(fn *types.Func, depth int) bool {
 }
 
 func noInline(*types.Func, int) bool { return false }
+
+// c06Accessors: R06.7 — TTL(ctx), SkipRead(ctx), and the context handed to the failure-cache lookup.
+func (c *Ctx) c06Accessors() {
+	r := c.R
+	// TTL(ctx)
+	if e, paths, _, err := c.runFunc("TTL", pw.Policy{Inline: noInline, Pure: func(*types.Func) bool { return false }}); err != nil {
+		r.Unknown("R06.7", "TTL", err.Error())
+	} else {
+		zero := e.IntConst(0)
+		bad := false
+		nOK, nNo := 0, 0
+		for _, p := range paths {
+			var cell, ok *pw.Val
+			for _, ev := range p.Events {
+				if ev.Kind == pw.EvAssign && ev.Value != nil {
+					switch ev.Value.Kind {
+					case pw.KAssert:
+						cell = ev.Value
+					case pw.KMapOk:
+						ok = ev.Value
+					}
+				}
+			}
+			if cell == nil || ok == nil {
+				r.Bad("R06.7", "TTL", "no-cell-lookup", c.Pos(p.RetPos), "TTL(ctx) does not look up the TTL cell with a comma-ok assertion", shortTrace(p))
+				bad = true
+				continue
+			}
+			t, known := p.Truth(ok)
+			ret := p.Ret[0]
+			switch {
+			case known && t:
+				nOK++
+				if !(ret.Kind == pw.KField && ret.Src == cell) {
+					r.Bad("R06.7", "TTL", "cell-value", c.Pos(p.RetPos), "with a TTL cell installed TTL(ctx) must return the cell's value", shortTrace(p))
+					bad = true
+				}
+			case known && !t:
+				nNo++
+				if p.Rel(ret, zero) != pw.REq {
+					r.Bad("R06.7", "TTL", "default-value", c.Pos(p.RetPos), "without a TTL cell TTL(ctx) must return 0 (DefaultTTL)", shortTrace(p))
+					bad = true
+				}
+			default:
+				r.Bad("R06.7", "TTL", "ok-untested", c.Pos(p.RetPos), "the comma-ok result is not tested", shortTrace(p))
+				bad = true
+			}
+		}
+		if nOK == 0 || nNo == 0 {
+			r.Unknown("R06.7", "TTL", "vacuous")
+		} else if !bad {
+			r.OK("R06.7", "TTL", "cell value when installed, 0 otherwise")
+		}
+	}
+	// SkipRead(ctx)
+	if e, paths, _, err := c.runFunc("SkipRead", pw.Policy{Inline: noInline, Pure: func(*types.Func) bool { return false }}); err != nil {
+		r.Unknown("R06.7", "SkipRead", err.Error())
+	} else {
+		bad := false
+		seen := map[string]int{}
+		for _, p := range paths {
+			var v, ok *pw.Val
+			for _, ev := range p.Events {
+				if ev.Kind == pw.EvAssign && ev.Value != nil {
+					switch ev.Value.Kind {
+					case pw.KAssert:
+						v = ev.Value
+					case pw.KMapOk:
+						ok = ev.Value
+					}
+				}
+			}
+			if v != nil && ok == nil {
+				// `v, _ := x.(bool); return v` — the zero value of a failed comma-ok assertion is false: same function
+				commaOK := false
+				for _, ov := range e.Vals {
+					if ov.Kind == pw.KMapOk && ov.Src == v {
+						commaOK = true
+					}
+				}
+				if commaOK && p.Ret[0] == v {
+					seen["flag"]++
+					continue
+				}
+			}
+			if v == nil || ok == nil {
+				r.Bad("R06.7", "SkipRead", "no-flag-lookup", c.Pos(p.RetPos), "SkipRead(ctx) does not look up the flag with a comma-ok assertion", shortTrace(p))
+				bad = true
+				continue
+			}
+			ret, retKnown := p.Truth(p.Ret[0])
+			okT, okK := p.Truth(ok)
+			vT, vK := p.Truth(v)
+			if !retKnown {
+				// returned value is the flag itself: allowed only when ok is known true
+				if !(okK && okT && p.Ret[0] == v) {
+					r.Bad("R06.7", "SkipRead", "result", c.Pos(p.RetPos), "SkipRead(ctx) must be true exactly when the flag is present and true", shortTrace(p))
+					bad = true
+				}
+				continue
+			}
+			want := okK && okT && vK && vT
+			if okK && !okT {
+				want = false
+			} else if okK && okT && !vK {
+				continue
+			}
+			seen[fmt.Sprint(want)]++
+			if ret != want {
+				r.Bad("R06.7", "SkipRead", "result", c.Pos(p.RetPos), fmt.Sprintf("SkipRead(ctx) returns %v on a path where the flag is present=%v value=%v", ret, okT, vT), shortTrace(p))
+				bad = true
+			}
+		}
+		if !bad {
+			r.OK("R06.7", "SkipRead", fmt.Sprintf("true exactly when present and true (%v)", seen))
+		}
+	}
+	// failure-cache lookups receive the caller's context
+	for _, sib := range siblings {
+		fo := c.failover(sib)
+		if fo.Err != nil {
+			continue
+		}
+		cons := sib + ".Get"
+		n, bad := 0, false
+		for _, p := range fo.Paths {
+			for _, ev := range p.Events {
+				if ev.Kind != pw.EvCall || !hasField(ev.Recv, "Errors") {
+					continue
+				}
+				name := ""
+				if ev.Callee != nil {
+					name = ev.Callee.Name()
+				}
+				switch name {
+				case "Read":
+					n++
+					if len(ev.Args) < 1 || !derivedCtx(ev.Args[0], fo.Ctx) {
+						d, t := c.pathDetail(fo, p, "the failure cache is consulted under a context that is not the caller's: SkipRead no longer forces a rebuild")
+						r.Bad("R06.7", cons, "failure-lookup-ctx", c.Pos(ev.Pos), d, t)
+						bad = true
+					}
+				case "Load", "Walk", "Len":
+					d, t := c.pathDetail(fo, p, "the failure cache is consulted through "+name+", which ignores the caller's context (SkipRead no longer forces a rebuild)")
+					r.Bad("R06.7", cons, "failure-lookup-without-ctx", c.Pos(ev.Pos), d, t)
+					bad = true
+				}
+			}
+		}
+		if n == 0 && !bad {
+			r.Unknown("R06.7", cons, "no failure-cache lookup found")
+		} else if !bad {
+			r.OK("R06.7", cons, fmt.Sprintf("%d failure-cache lookups under the caller's context", n))
+		}
+	}
+}
